@@ -27,6 +27,16 @@ func (p *Prog) typeByName(name string, pkg *types.Package) types.Type {
 	}
 	if i := strings.LastIndex(name, "."); i >= 0 {
 		pn, tn := name[:i], name[i+1:]
+		// a package imported by the contract's own package wins (two packages may share a name)
+		if pkg != nil {
+			for _, imp := range pkg.Imports() {
+				if imp.Name() == pn || imp.Path() == pn {
+					if o, ok := imp.Scope().Lookup(tn).(*types.TypeName); ok {
+						return o.Type()
+					}
+				}
+			}
+		}
 		var best types.Type
 		for _, q := range p.ssa.AllPackages() {
 			path := q.Pkg.Path()
@@ -53,7 +63,8 @@ func (p *Prog) typeByName(name string, pkg *types.Package) types.Type {
 
 func allKeysOfType(T types.Type) []string {
 	if _, ok := T.Underlying().(*types.Struct); ok {
-		return []string{"F:" + typeKey(T) + ":"}
+		// objects reached through a pointer and elements of slices / arrays of the type
+		return []string{"F:" + typeKey(T) + ":", "E:" + typeKey(T) + ":"}
 	}
 	return []string{"B:" + typeKey(T) + ":", "E:" + typeKey(T) + ":"}
 }
